@@ -308,6 +308,23 @@ def rule_M7(ctx: Ctx) -> None:
     rule_B9(ctx)
 
 
+def rule_M8(ctx: Ctx) -> None:
+    """the recorded start cell is the generator's own object: _random_start_coord hands back a fresh array on every path (np.array(..) copies,
+    np.random.randint draws); an alias of the caller's array (np.asarray(x), x itself) lets later writes of the caller change the record"""
+    f = ctx.index.func("maze_dataset.generation.generators._random_start_coord")
+    p_ = f.params()[1] if len(f.params()) > 1 else None
+    FRESH = ("np.array", "numpy.array", "np.random.randint", "numpy.random.randint", "np.copy", "copy.deepcopy", "copy.copy", "tuple", "list")
+    cands = [(e2, c1 + c2) for e1, c1 in X.value_candidates(f.node) for e2, c2 in X.split_ifexp(e1)]
+    for e, conds in cands:
+        d = dotted_of(e.func) if isinstance(e, ast.Call) else None
+        fresh = d in FRESH or (isinstance(e, ast.Call) and isinstance(e.func, ast.Attribute) and e.func.attr in ("copy", "astype", "tolist"))
+        alias = (isinstance(e, ast.Name) and e.id == p_) or d in ("np.asarray", "numpy.asarray", "np.asanyarray", "np.ascontiguousarray")
+        ctx.judge(f, True if fresh else False if alias else None, {"returns": X.U(e)[:80], "under": [X.U(t)[:40] for t, _ in conds][:2]},
+                  "every value _random_start_coord returns is a new object (np.array(start_coord) copies; a random draw is new)",
+                  "generation_meta['start_coord'] aliases the caller's array: the recorded start changes when the caller reuses its buffer, and is no longer "
+                  "the cell the recorded visited_cells are reachable from")
+
+
 RULES = [
     Rule("C12.M1", rule_M1, floor=1, doc="fully_connected against the total"),
     Rule("C12.M2", rule_M2, floor=3, doc="recorded set is the loop's set"),
@@ -315,6 +332,7 @@ RULES = [
     Rule("C12.M4", rule_M4, floor=2, doc="component recomputed last"),
     Rule("C12.M5", rule_M5, floor=6, doc="metadata key agreement"),
     Rule("C12.M6", rule_M6, floor=2, doc="accessible-cell bound"),
+    Rule("C12.M8", rule_M8, floor=2, doc="the recorded start cell is a fresh object on every path of _random_start_coord"),
     Rule("C12.M7", rule_M7, floor=3, doc="DFS-stage metadata stays true under percolation (union of edges, forwarded arguments)"),
 ]
 
